@@ -108,6 +108,16 @@ func (c *vhFakeConn) release() {
 		close(c.gate)
 	}
 }
+// advance moves the gate forward: the data up to offset `to` is now available (a Read waiting at the old gate
+// returns it), a Read that reaches `to` waits again.
+func (c *vhFakeConn) advance(to int) {
+	old := c.gate
+	c.gateAfter = to
+	c.gate = make(chan struct{})
+	if old != nil && !c.gateOpen {
+		close(old)
+	}
+}
 func (c *vhFakeConn) LocalAddr() net.Addr                { return vhAddr{} }
 func (c *vhFakeConn) RemoteAddr() net.Addr               { return vhAddr{} }
 func (c *vhFakeConn) SetDeadline(t time.Time) error { return c.SetReadDeadline(t) }
